@@ -825,7 +825,11 @@ def execute(plan, ctx):
     import localcider.sequencePermutants as permmod
     import localcider.sequenceParameters as spmod
     from localcider.backend.sequence import Sequence
-    from localcider.backend.localciderExceptions import SequenceException
+    try:
+        from localcider.backend.localciderExceptions import SequenceException
+    except Exception:
+        class SequenceException(Exception):
+            pass
     envmode.apply(plan.get("env"), ctx)
     spmod.print = lambda *a, **k: None
     wl.print = lambda *a, **k: None
